@@ -6,6 +6,7 @@ package interp
 import (
 	"fmt"
 	"go/types"
+	"math"
 	"reflect"
 	"regexp"
 	"strconv"
@@ -367,6 +368,11 @@ func registerStubs(e *Engine) {
 		return strconv.FormatFloat(args[0].(float64), byte(asInt64c(args[1])), int(asInt64c(args[2])), int(asInt64c(args[3])))
 	})
 	e.reg("strconv.Quote", nat(strconv.Quote))
+	e.reg("math.Float64bits", nat(math.Float64bits))
+	e.reg("math.Float64frombits", nat(math.Float64frombits))
+	e.reg("math.IsNaN", nat(math.IsNaN))
+	e.reg("math.IsInf", nat(math.IsInf))
+	e.reg("math.Abs", nat(math.Abs))
 	e.reg("strconv.ParseBool", nat(strconv.ParseBool))
 	e.reg("strconv.FormatBool", nat(strconv.FormatBool))
 
